@@ -49,6 +49,13 @@ def main(argv=None):
         for f in cf.as_completed(futs):
             u = futs[f]
             results[u.name] = f.result()
+    # ---- pinned trusted primitives
+    pinned_changed = []
+    try:
+        from vx import pinned
+        pinned_changed = [x for x in pinned.changed(a.repo_src) if pid in x[1]]
+    except Exception as e:
+        pinned_changed = [('pinned', [pid], 'pin check failed: %s' % e)]
     # ---- Kani harnesses
     kres = []
     if spec.get('kani'):
@@ -115,6 +122,8 @@ def main(argv=None):
             if pid in g.owner_props.get(own, [pid]):
                 # the solver gave up on a function that verifies on the unchanged tree: undecided by the verifier; the bounded stand-in may still find a failing input
                 soft.append((name, own, 'resource limit exceeded while verifying %s (undecided by the verifier)' % own))
+    for (k_, props_, why_) in pinned_changed:
+        soft.append(('pinned', k_, why_))
     for k in kres:
         cmds.append(k['cmd'])
         n_obl += k.get('checks', 1)
@@ -233,5 +242,13 @@ def main(argv=None):
     print('OK property=%s tier=%s obligations=%d discharged=%d wall=%.1fs' % (pid, tier, n_obl, n_dis, wall))
     return 0
 
+def _cleanup():
+    import shutil
+    shutil.rmtree(os.path.join(VERIF, 'build', 'gen', 'p%d' % os.getpid()), ignore_errors=True)
+
 if __name__ == '__main__':
-    sys.exit(main())
+    try:
+        rc = main()
+    finally:
+        _cleanup()
+    sys.exit(rc)
